@@ -94,6 +94,12 @@ func runC08(r *vk.Run) {
 			// without this every entry would be alone in its stream: the engine exposes the (unique) line as label msg
 			pushStage(&q, stDrop([]nameOrMatcher{{Name: "msg"}}))
 		}
+		if (ds.Format == "json" || ds.Format == "mixed") && len(q.Stages) > 0 && q.Stages[0].Kind == "json" && rng.Chance(1, 4) {
+			// nothing but typed labels left (numbers, booleans as | json exposes them): streams are told
+			// apart by their values all the same
+			pushStage(&q, stKeep([]nameOrMatcher{{Name: "status"}, {Name: "ok"}}))
+			c.Count("typed_only_label_sets", 1)
+		}
 		text := q.Text()
 		model := q.RunModel(ds.Recs, msg)
 		if unknown > 0 || undecided > 0 {
@@ -304,6 +310,76 @@ func runC08(r *vk.Run) {
 	})
 	r.Require("container_truncating_limits_3plus", 300)
 	r.Require("out_of_order_arrivals", 100)
+	// "every entry sits in the stream carrying exactly its labels" includes the labels the engine adds
+	// itself (__error__, __error_details__): each record is evaluated alone, which gives its final
+	// label set, and then all of them together, where its stream must carry exactly that set
+	r.Phase("errorstreams", r.N(150, 20000), func(c *vk.Case) {
+		rng := c.Rng
+		broken := []string{`{"a":1`, `{"a" 1}`, `{"a":1,}`, `GET /healthz 200`, `POST /login 302`, `[1,2]`, `{"a":{"b":`, `{a:1}`, `{"k":oops}`, `a="unterminated`, `{"_entry":"x","0k":"v"}`}
+		n := rng.Range(3, 10)
+		var recs []Rec
+		for i := 0; i < n; i++ {
+			line := vk.Pick(rng, broken)
+			if rng.Chance(1, 4) {
+				line = `{"a":1,"lvl":"info"}`
+			}
+			recs = append(recs, Rec{TS: logT0 + int64(i+1)*1e9, Line: line, Labels: map[string]string{"app": "x"}})
+		}
+		stage := vk.Pick(rng, []string{"| json", "| json a, lvl", "| logfmt", "| unpack", `| json x="a.b"`}) + vk.Pick(rng, []string{" | drop msg", " | drop msg", " | keep app, __error__, __error_details__", ` | label_format msg="m"`})
+		if c.Idx%3 == 0 {
+			// no stage at all: the label set is what the storage says about the record, and a record with
+			// an empty line carries no line label -- not the one of its predecessor
+			stage = vk.Pick(rng, []string{"", "", `|= ""`, "| drop nosuch"})
+			for i := range recs {
+				recs[i].Line = vk.Pick(rng, []string{"", "", "x", "x", "y z", "\n"})
+			}
+			c.Count("stage_less_queries", 1)
+		}
+		query := `{app="x"} ` + stage
+		alone := map[int64]map[string]string{}
+		for _, rec := range recs {
+			res, err := evalQuery(&MemQuerier{Recs: []Rec{rec}, ErrAfter: -1}, query, logRangeParams(n+1))
+			c.Eval(1)
+			if err != nil || len(res.Streams) != 1 || len(res.Streams[0].Entries) != 1 {
+				c.Fail("", fmt.Sprintf("%s over the single line %q: err=%v, %d streams", query, rec.Line, err, len(res.Streams)), map[string]any{"query": query, "line": rec.Line})
+				return
+			}
+			alone[rec.TS] = res.Streams[0].Labels
+		}
+		res, err := evalQuery(&MemQuerier{Recs: recs, ErrAfter: -1}, query, logRangeParams(n+1))
+		c.Eval(1)
+		det := map[string]any{"query": query, "records": recs, "labels_when_alone": alone, "result": res}
+		if err != nil {
+			c.Fail("", query+" failed: "+err.Error(), det)
+			return
+		}
+		seenSets := map[string]bool{}
+		total := 0
+		for _, st := range res.Streams {
+			k := labelKey(st.Labels)
+			if seenSets[k] {
+				c.Fail("", "two streams share label set "+k, det)
+				return
+			}
+			seenSets[k] = true
+			for _, e := range st.Entries {
+				total++
+				if want, ok := alone[e.TS]; !ok || !mapsEqual(want, st.Labels) {
+					c.Fail("", fmt.Sprintf("%s: entry ts=%d line %q sits in stream %s, its own labels are %s", query, e.TS, e.Line, k, labelKey(want)), det)
+					return
+				}
+			}
+		}
+		if total != n {
+			c.Fail("", fmt.Sprintf("%s: %d entries for %d records", query, total, n), det)
+			return
+		}
+		c.Count("error_label_stream_checks", 1)
+		if len(res.Streams) >= 2 {
+			c.Nontrivial(fmt.Sprintf("errorstreams|%d", c.Idx))
+		}
+	})
+	r.Require("error_label_stream_checks", 100)
 	r.Require("limit_checks", 4000)
 	r.Require("truncating_limits", 500)
 	r.Require("streams", 2000)
